@@ -58,6 +58,7 @@ inductive EvErr
   | opInternal (o : Op)              -- "Internal Error in '<op>' operation"
   | opWrongTypes (o : Op)            -- "Wrong argument types for '<op>'"
   | divideNaN                        -- "Result of '/' is NaN"
+  | remUndefined                     -- "Result of '%' is undefined (division by zero)"
   | greaterUnsupported               -- "'>' supports only numeric or string types"
   | internal                         -- "Internal Error"
   | illegalResultArray | illegalResultMap
@@ -140,6 +141,7 @@ def EvErr.toText : EvErr → Str
   | .opInternal o => sOf "Internal Error in '" ++ opText o ++ sOf "' operation"
   | .opWrongTypes o => sOf "Wrong argument types for '" ++ opText o ++ sOf "'"
   | .divideNaN => sOf "Result of '/' is NaN"
+  | .remUndefined => sOf "Result of '%' is undefined (division by zero)"
   | .greaterUnsupported => sOf "'>' supports only numeric or string types"
   | .internal => sOf "Internal Error"
   | .text s => s
@@ -265,15 +267,11 @@ def satMul (a b : Int) : Int := clampI64 (a * b)
 /-! ### the operator functions -/
 
 inductive PanicSite
-  | remByZero        -- `i1 % i2` with `i2 == 0`
-  | remOverflow      -- `i64::MIN % -1`
-  | absOverflow      -- `i64::MIN.abs()` (overflow checks on)
   | parserInternal   -- `panic!("Internal error")` in stack_to_expression
   deriving DecidableEq, Repr, Inhabited
 
 inductive OpRes (D : Type)
   | val (d : Data D) (newCells : List (Data D))
-  | panic (s : PanicSite)
   | deadlock
   | fuelOut
   deriving Repr
@@ -306,19 +304,24 @@ def arith {D} (ops : DoubleOps D) (o : Op) (fd : D → D → D) (fi : Int → In
   | .int a, .int b => fi a b
   | _, _ => .val (.error (.opInternal o)) []
 
+/-- `(Integer(_), Integer(0)) => Error`, otherwise `i1.wrapping_rem(i2)`: the truncated remainder
+(`i64::MIN.wrapping_rem(-1)` is `0 = Int.tmod i64Min (-1)`) -/
 def remI64 {D} (a b : Int) : OpRes D :=
-  if b == 0 then .panic .remByZero
-  else if a == i64Min && b == -1 then .panic .remOverflow
+  if b == 0 then .val (.error .remUndefined) []
   else .val (.int (Int.tmod a b)) []
 
-/-- `ExpressionOperator::operation`.  `held` are the cells locked by the caller (the operands),
-`n` is the number of cells (a new cell made by `+` gets id `n`). -/
+/-- `ExpressionOperator::operation`.  `held` are the cells locked by the caller (none since the
+operator works on copies of its operands), `n` is the number of cells (a new cell made by `+`
+gets id `n`). -/
 def operation {D} (ops : DoubleOps D) (cells : Cells D) (held : List Nat) (o : Op)
     (l r : Data D) : OpRes D :=
   let fuel := cells.length + 1
   let disp := dispTop ops cells held
-  let cmp (num : D → D → Bool) (txt : Str → Str → Bool) (other : Data D) : OpRes D :=
-    if isNumeric l && isNumeric r then .val (.bool (num (asNumber ops l) (asNumber ops r))) []
+  let cmp (int : Int → Int → Bool) (num : D → D → Bool) (txt : Str → Str → Bool) (other : Data D) :
+      OpRes D :=
+    -- two Integers are compared exactly, everything else numeric through `as_number`
+    if let (.int a, .int b) := (l, r) then .val (.bool (int a b)) []
+    else if isNumeric l && isNumeric r then .val (.bool (num (asNumber ops l) (asNumber ops r))) []
     else if isTextual l && isTextual r then .val (.bool (txt (disp l) (disp r))) []
     else .val other []
   match o with
@@ -366,10 +369,12 @@ def operation {D} (ops : DoubleOps D) (cells : Cells D) (held : List Nat) (o : O
   | .modulus =>
     if isNumeric l && isNumeric r then arith ops .modulus ops.rem remI64 l r
     else .val (.error (.opWrongTypes .modulus)) []
-  | .less => cmp ops.lt strLt (.bool false)
-  | .lessEqual => cmp ops.le strLe (.bool false)
-  | .greater => cmp (fun a b => ops.lt b a) (fun a b => strLt b a) (.error .greaterUnsupported)
-  | .greaterEqual => cmp (fun a b => ops.le b a) (fun a b => strLe b a) (.bool false)
+  | .less => cmp (fun a b => decide (a < b)) ops.lt strLt (.bool false)
+  | .lessEqual => cmp (fun a b => decide (a ≤ b)) ops.le strLe (.bool false)
+  | .greater => cmp (fun a b => decide (b < a)) (fun a b => ops.lt b a) (fun a b => strLt b a)
+      (.error .greaterUnsupported)
+  | .greaterEqual => cmp (fun a b => decide (b ≤ a)) (fun a b => ops.le b a) (fun a b => strLe b a)
+      (.bool false)
   | .equal =>
     match eqData ops (eqArc ops cells fuel held) l r with
     | .yes => .val (.bool true) []
